@@ -4,6 +4,7 @@
      runner [--schema <file>] [--edv]
    Codec-level lines: vi ve key dkey enc encr encp mrg mrgr skip ld
    Message-level lines (need --schema): dec decq merge declen lendelim
+     grp <idx> <opt|~> <req> <many|~> <tail> / grpdec <idx> <hex>   the group codec through GroupMsg.gh_* (as pv-gen-pb)
      own <idx> <hex>   the ownership model (Own.own_decode / own_wrapper_decode):
                        ok|err|panic H<live heap blocks> R<live handles on the input> T<handles of empty tail slices> when decode has returned
                        (ok: what the returned value holds), B<number of places in the value where the Rust type may
@@ -266,6 +267,43 @@ let cmd_merge t =
     | OOk (v, s) -> out_m (msg_merge !schema i v { rb = b2; ra = s.ra }) (show_msg i)
     | r -> out_m r (show_msg i)
 
+(* ---- the group codec through the model of the harness's GroupHolder<M> (GroupMsg.v) *)
+let holder_parts i (h : val0) : string =
+  let e v = hex_of_bytes (enc_msg !edv big_fuel !schema i v) in
+  match h with
+  | VL (NMsg, [o; r; VL (NRep, ms); VI t]) ->
+    let opt = (match o with VL (NSome, [v]) -> e v | _ -> "~") in
+    let many = if ms = [] then "~" else String.concat "," (List.map e ms) in
+    Printf.sprintf "%s %s %s %s" opt (e r) many (string_of_z t)
+  | _ -> "?"
+
+let cmd_grp t =
+  let ii = next_int t in
+  let i = nat_of_int ii in
+  let part s = match msg_decode !schema i (mk (bytes_of_hex s)) with
+    | OOk (v, _) -> v
+    | _ -> failwith "a part does not decode" in
+  let o = (match next t with "~" -> VL (NNone, []) | s -> VL (NSome, [part s])) in
+  let r = part (next t) in
+  let ms = (match next t with "~" -> [] | s -> List.map part (String.split_on_char ',' s)) in
+  let tail = next_z t in
+  let h = VL (NMsg, [o; r; VL (NRep, ms); VI tail]) in
+  let e = gh_enc !schema i !edv big_fuel h in
+  let l = gh_len !schema i !edv big_fuel h in
+  let back = (match gh_decode !schema i (mk e) with
+      | OOk (h2, _) -> holder_parts i h2
+      | OErr (er, _) -> "ERR " ^ string_of_perr er
+      | OPanic p -> "PANIC " ^ string_of_psite p) in
+  Printf.sprintf "OK L%s E%s I %s B %s" (string_of_z l) (hex_of_bytes e) (holder_parts i h) back
+
+let cmd_grpdec t =
+  let ii = next_int t in
+  let i = nat_of_int ii in
+  let bytes = bytes_of_hex (next t) in
+  out_m (gh_decode !schema i (mk bytes))
+    (fun h _ -> Printf.sprintf "L%s E%s B %s" (string_of_z (gh_len !schema i !edv big_fuel h))
+        (hex_of_bytes (gh_enc !schema i !edv big_fuel h)) (holder_parts i h))
+
 (* message values at positions where the generated struct may hold a Box (upper bound for the blocks the model does not count) *)
 let rec boxable (inside : bool) (v : val0) : int =
   match v with
@@ -335,7 +373,7 @@ let suites : (string * (toks -> string)) list = [
   "vi", cmd_vi; "ve", cmd_ve; "key", cmd_key; "dkey", cmd_dkey; "enc", cmd_enc; "encr", cmd_encr;
   "encp", cmd_encp; "mrg", cmd_mrg; "mrgr", cmd_mrgr; "skip", cmd_skip; "ld", cmd_ld; "lendelim", cmd_lendelim;
   "rt", cmd_rt; "rtr", cmd_rtr; "rtp", cmd_rtp;
-  "dec", cmd_dec; "decq", cmd_dec; "declen", cmd_declen; "merge", cmd_merge; "encm", cmd_encm; "own", cmd_own ]
+  "dec", cmd_dec; "decq", cmd_dec; "declen", cmd_declen; "merge", cmd_merge; "encm", cmd_encm; "own", cmd_own; "grp", cmd_grp; "grpdec", cmd_grpdec ]
 
 let () =
   let args = Array.to_list Sys.argv |> List.tl in
